@@ -8,7 +8,7 @@ C08 — `Onchain.beneficialValue` (the fee bound of `sign_onchain_tx`) proved eq
 `(nb·1000 + 999) / weight` in `u128`, same comparison against `max_feerate_per_kw`, same developer flag, same
 filtered tag, and the same division panic for a zero weight.
 -/
-namespace VlsModel.Props.C08Gen
+namespace VlsModel.Props.C08Fn
 open VlsModel VlsModel.Onchain
 open VlsModel.Gen.FnSimple (SimpleValidator SimplePolicy PolicyDevFlags)
 
@@ -31,7 +31,7 @@ def rel : Rs.M Nat → Res
                        if s = Tag.fmtStandard.name then .err .fmtStandard else .panic
   | .error _ => .panic
 
-theorem C08_gen_validate_beneficial_value (p : Policy) (sumIn sumOut weight : Nat) (hin : sumIn ≤ Rs.U64_MAX) :
+theorem C08_fn_validate_beneficial_value (p : Policy) (sumIn sumOut weight : Nat) (hin : sumIn ≤ Rs.U64_MAX) :
     rel ((toV p).validate_beneficial_value (filt p) sumIn sumOut weight) = beneficialValue p sumIn sumOut weight := by
   unfold SimpleValidator.validate_beneficial_value beneficialValue impliedFeerate U64.checkedSub
   simp only [Rs.okOr, Rs.ucheckedSub]
@@ -55,9 +55,9 @@ theorem C08_gen_validate_beneficial_value (p : Policy) (sumIn sumOut weight : Na
 
 /-- `dev_flags: None` behaves as `disable_beneficial_balance_checks = false` (the constant `DEFAULT_DEV_FLAGS` is
     read from the source) -/
-theorem C08_gen_default_dev_flags (p : Policy) (hd : p.devDisable = false) (sumIn sumOut weight : Nat) :
+theorem C08_fn_default_dev_flags (p : Policy) (hd : p.devDisable = false) (sumIn sumOut weight : Nat) :
     (toVNoFlags p).validate_beneficial_value (filt p) sumIn sumOut weight
       = (toV p).validate_beneficial_value (filt p) sumIn sumOut weight := by
   simp [SimpleValidator.validate_beneficial_value, toVNoFlags, toV, hd]
 
-end VlsModel.Props.C08Gen
+end VlsModel.Props.C08Fn
